@@ -28,7 +28,7 @@ for p in $prop "$@"; do
   res="$res $p:viol=$nv[$sig]"
 done
 # without the change
-git stash -q -- . ':!*zz_demo_seeded_test.go' 2>/dev/null || git checkout -q -- .
+# (no git stash: the stash list is shared with /repo and would keep the seeded change there)
 git checkout -q -- . 2>/dev/null
 demo_without=$(cd $wt && go test -count=1 -run 'Demo|demo|ZZ' ./$ddir/ 2>&1 | tail -1 | cut -c1-80)
 echo "$id | demo with change: $demo_with | without: $demo_without |$res"
